@@ -49,7 +49,9 @@ namespace {
 
 string q(const string& s) {  // printable, quoted
   string o = "\"";
-  for (char ch : s) { if (ch == '\t') o += "\\t"; else if (ch == '\n') o += "\\n"; else o += ch; }
+  for (char ch : s) { if (ch == '\t') o += "\\t"; else if (ch == '\n') o += "\\n"; else if (ch == '\r') o += "\\r"; else if (ch == '\v') o += "\\v"; else if (ch == '\f') o += "\\f";
+    else if (static_cast<unsigned char>(ch) < 0x20 || static_cast<unsigned char>(ch) >= 0x7f) { static const char* H = "0123456789abcdef"; o += "\\x"; o += H[static_cast<unsigned char>(ch) >> 4]; o += H[ch & 15]; }
+    else o += ch; }
   return o + "\"";
 }
 string showList(const vector<string>& v) { string o = "["; for (size_t i = 0; i < v.size(); ++i) o += (i ? "," : "") + q(v[i]); return o + "]"; }
@@ -481,9 +483,38 @@ string renderArgs(vf::Ctx& c, const SMap& m, const string& split, bool blanks) {
   return o;
 }
 
+// A second argument map for a parse into a map object that already holds the result of a first parse: some keys of `first`
+// recur (mostly with another value), some keys are new.  `changed` counts the recurring keys whose value differs.
+SMap genSecondArgs(vf::Ctx& c, const SMap& first, bool nestedOk, bool noEmptyValue, bool& hasNested, size_t& changed) {
+  SMap m = genArgs(c, 3, nestedOk, hasNested);
+  for (auto& kv : first)
+    if (c.flag()) { bool dummy = false; SMap one = genArgs(c, 1, nestedOk, dummy); m[kv.first] = one.empty() ? kv.second : one.begin()->second; }
+  if (noEmptyValue) for (auto& kv : m) if (kv.second.empty()) kv.second = "0";
+  changed = 0; for (auto& kv : m) { auto it = first.find(kv.first); if (it != first.end() && it->second != kv.second) ++changed; }
+  return m;
+}
+// The output map after a first parse (giving `first`) and a second parse of a description rendered from `second` into the SAME map
+// object.  "Fills a map with all keys and values" / "[out] will contain the keys and their corresponding values": every key of the
+// second description holds the value written there.  The doc does not say whether entries that were in the map before are kept:
+// weakest reading, such an entry is either still there with its value or gone, and nothing else is in the map.
+void checkSecondParse(vf::Ctx& c, const char* fn, const string& desc2, const SMap& first, const SMap& second, const SMap& got) {
+  for (auto& kv : second) {
+    auto it = got.find(kv.first);
+    CHECK(it != got.end(), fn << " of " << q(desc2) << " into the map " << showMap(first) << " of an earlier parse: key " << q(kv.first) << " is missing; map " << showMap(got));
+    CHECK(it->second == kv.second, fn << " of " << q(desc2) << " into the map " << showMap(first) << " of an earlier parse: " << q(kv.first) << " holds " << q(it->second)
+          << " instead of the value " << q(kv.second) << " of the description just parsed; map " << showMap(got));
+  }
+  for (auto& kv : got) {
+    if (second.count(kv.first)) continue;
+    auto it = first.find(kv.first);
+    CHECK(it != first.end() && it->second == kv.second, fn << " of " << q(desc2) << " into the map " << showMap(first) << " of an earlier parse: entry " << q(kv.first) << ":" << q(kv.second)
+          << " comes from neither description; map " << showMap(got));
+  }
+}
+
 }  // namespace
 
-LAW(K1_procedure, RC, 30000, 1500000, 120, "procedure with a nested argument") {
+LAW(K1_procedure, RC, 30000, 1500000, 240, "procedure with a nested argument") {
   string name = genWord(c, NAMECH, 1, 6);
   bool hasNested = false; SMap args = genArgs(c, 6, true, hasNested);
   bool blanks = c.oneIn(3);
@@ -498,6 +529,16 @@ LAW(K1_procedure, RC, 30000, 1500000, 120, "procedure with a nested argument") {
   catch (bpp::Exception& e) { CHECK(false, "parseProcedure(" << q(desc) << ") raised: " << what1(e)); }
   CHECK(name2 == name, "parsed name " << q(name2) << " differs from " << q(name));
   CHECK(args2 == args, "parsed arguments " << showMap(args2) << " differ from " << showMap(args));
+  // a second procedure parsed into the same name / map objects: recurring keys take the values of the description just parsed
+  string nameB = genWord(c, NAMECH, 1, 6);
+  bool nestedB = false; size_t changed = 0; SMap argsB = genSecondArgs(c, args, true, false, nestedB, changed);
+  string descB = nameB + "(" + renderArgs(c, argsB, ",", false) + ")";
+  if (changed) c.label("second_parse_changes_a_value");
+  c.desc << "; then " << q(descB) << " into the same map";
+  try { KeyvalTools::parseProcedure(descB, name2, args2); }
+  catch (bpp::Exception& e) { CHECK(false, "parseProcedure(" << q(descB) << ") into the map of an earlier parse raised: " << what1(e)); }
+  CHECK(name2 == nameB, "parsed name " << q(name2) << " differs from " << q(nameB) << " (second parse into the same objects)");
+  checkSecondParse(c, "parseProcedure", descB, args, argsB, args2);
 }
 
 LAW(K2_changeKeyvals, RC, 30000, 1500000, 200, "a nested argument, >= 1 key replaced and >= 1 key of the new map absent from the procedure") {
@@ -523,7 +564,7 @@ LAW(K2_changeKeyvals, RC, 30000, 1500000, 200, "a nested argument, >= 1 key repl
   CHECK(args2 == want, "changeKeyvals result " << q(out) << " parses to " << showMap(args2) << ", expected " << showMap(want));
 }
 
-LAW(K3_multipleKeyvals, RC, 30000, 1500000, 120, "nested parsing with a nested argument, or '=' written as a token of its own") {
+LAW(K3_multipleKeyvals, RC, 30000, 1500000, 240, "nested parsing with a nested argument, or '=' written as a token of its own") {
   bool nested = c.flag();
   string split = c.pick(vector<string>{",", " ", ";"});
   bool hasNested = false; SMap args = genArgs(c, 6, nested, hasNested);
@@ -540,6 +581,16 @@ LAW(K3_multipleKeyvals, RC, 30000, 1500000, 120, "nested parsing with a nested a
   try { KeyvalTools::multipleKeyvals(desc, got, split, nested); }
   catch (bpp::Exception& e) { CHECK(false, "multipleKeyvals(" << q(desc) << ") raised: " << what1(e)); }
   CHECK(got == args, "multipleKeyvals gave " << showMap(got) << ", expected " << showMap(args));
+  // a second description parsed into the same map object: recurring keys take the values of the description just parsed
+  bool nestedB = false; size_t changed = 0; SMap argsB = genSecondArgs(c, args, nested, spaced, nestedB, changed);
+  string descB;
+  if (spaced) { bool f = true; for (auto& kv : argsB) { descB += string(f ? "" : " ") + kv.first + " = " + kv.second; f = false; } }
+  else descB = renderArgs(c, argsB, split, false);
+  if (changed) c.label("second_parse_changes_a_value");
+  c.desc << "; then " << q(descB) << " into the same map";
+  try { KeyvalTools::multipleKeyvals(descB, got, split, nested); }
+  catch (bpp::Exception& e) { CHECK(false, "multipleKeyvals(" << q(descB) << ") into the map of an earlier parse raised: " << what1(e)); }
+  checkSecondParse(c, "multipleKeyvals", descB, args, argsB, got);
 }
 
 // ====================================================================== wildcards
@@ -748,7 +799,7 @@ LAW(V2_variables_formed, RC, 20000, 1000000, 160, "a reference that only exists 
 }
 
 // ====================================================================== tables
-LAW(D1_table, RC, 20000, 1000000, 280, "table with row names") {
+LAW(D1_table, RC, 20000, 1000000, 320, "table with row names") {
   const string sep(1, c.pick(vector<char>{'\t', ',', ';', ' '}));
   int nCol = c.irange(1, 6);
   bool colNames = !c.oneIn(3);
@@ -768,14 +819,42 @@ LAW(D1_table, RC, 20000, 1000000, 280, "table with row names") {
   if (rowNames) rn = uniqueNames(nRow, "r");
   vector<vector<string>> cells(static_cast<size_t>(nRow), vector<string>(static_cast<size_t>(nCol)));
   for (auto& r : cells) for (auto& x : r) x = cell();
-  DataTable dt(static_cast<size_t>(nCol));
-  if (colNames) dt.setColumnNames(cn);
-  for (int i = 0; i < nRow; ++i) { if (rowNames) dt.addRow(rn[static_cast<size_t>(i)], cells[static_cast<size_t>(i)]); else dt.addRow(cells[static_cast<size_t>(i)]); }
   bool align = c.flag(), viaBpp = c.flag();
   // the `header` argument of read(): with column names only it must be true and without names false (otherwise the first line is,
   // as documented, read as something else); with column AND row names the first line is one field shorter than the second and is
   // documented to be taken as column names whatever `header` says: both values are used
   const bool header = rowNames ? !c.flag() : colNames;
+  // Characters that are neither the separator nor the line end but that a "tolerant" reader might treat specially (carriage return,
+  // vertical tab, form feed, a tab or blank with another separator, quote, comment sign, a non-ASCII byte), put at the start, the end
+  // or inside some fields, preferably the LAST field of a text line (last column name, last cell of a row) whose end is the end of the
+  // line, or the first one.  A field stays non-blank (characters are only added) and names stay unique (a colliding edit is dropped).
+  // Drawn after all other draws of the law so that older replay files keep their meaning.
+  bool oddEnd = false;
+  {
+    string ODD = string("\r\v\f\"#'\xe9") + (sep == "\t" ? "" : "\t") + (sep == " " ? "" : " ");
+    int nEdit = c.weighted({2, 3, 2, 1});
+    for (int e = 0; e < nEdit; ++e) {
+      // which line: -1 = the column names (if any), else a row; which field: 0 = row name (if any), then the cells
+      int line = c.irange(colNames ? -1 : 0, nRow - 1);
+      int nField = nCol + (line >= 0 && rowNames ? 1 : 0);
+      int field; switch (c.weighted({3, 1, 1})) { case 0: field = nField - 1; break; case 1: field = 0; break; default: field = c.irange(0, nField - 1); }
+      string* target;
+      if (line < 0) target = &cn[static_cast<size_t>(field)];
+      else if (rowNames && field == 0) target = &rn[static_cast<size_t>(line)];
+      else target = &cells[static_cast<size_t>(line)][static_cast<size_t>(field - (rowNames ? 1 : 0))];
+      const char ch = ODD[c.below(ODD.size())];
+      string edited = *target;
+      switch (c.weighted({3, 1, 1})) { case 0: edited += ch; break; case 1: edited.insert(edited.begin(), ch); break; default: edited.insert(edited.begin() + static_cast<long>(c.below(edited.size() + 1)), ch); }
+      if (line < 0 && find(cn.begin(), cn.end(), edited) != cn.end()) continue;
+      if (line >= 0 && rowNames && field == 0 && find(rn.begin(), rn.end(), edited) != rn.end()) continue;
+      *target = edited;
+      if (field == nField - 1 && edited.back() == ch) oddEnd = true;
+    }
+  }
+  if (oddEnd) c.label("line_ends_with_special_character");
+  DataTable dt(static_cast<size_t>(nCol));
+  if (colNames) dt.setColumnNames(cn);
+  for (int i = 0; i < nRow; ++i) { if (rowNames) dt.addRow(rn[static_cast<size_t>(i)], cells[static_cast<size_t>(i)]); else dt.addRow(cells[static_cast<size_t>(i)]); }
   c.desc << nRow << "x" << nCol << " sep " << q(sep) << (header ? " header=true" : " header=false") << (align ? " alignHeaders" : "") << (viaBpp ? " bpp::OutputStream" : " std::ostream") << " colNames " << (colNames ? showList(cn) : string("none"))
          << " rowNames " << (rowNames ? showList(rn) : string("none")) << " cells";
   for (auto& r : cells) c.desc << " " << showList(r);
